@@ -184,3 +184,64 @@ Lemma art_hypotheses_satisfiable :
      = (demo_log ++ [created_frame 1 20; handoff_frame 1 21 0 6 (Some 15) (Some 40) false], [(40, [])], Ok (1, 6, Some 15))
   /\ w_handoff GNonEmptyIsFile [] = (demo_log, [], Err ENoArtifact).
 Proof. vm_compute. repeat split; reflexivity. Qed.
+
+(* ---- the non-empty test is implied by is_file: "" joins to a string that ends with a separator, and a walk whose
+   last segment is empty never stands at a regular file.  (So dropping `!id.is_empty()` keeps the property - mutation
+   M3 - while replacing is_file by exists does not.) *)
+Lemma split_aux_snoc : forall c s cur, split_aux c cur (s ++ [c]) = split_aux c cur s ++ [[]].
+Proof.
+  intros c s. induction s as [|x r IH]; intros cur.
+  - cbn [app split_aux]. rewrite N.eqb_refl. reflexivity.
+  - cbn [app split_aux]. destruct (x =? c); rewrite IH; reflexivity.
+Qed.
+
+Lemma walk_last_empty_not_file : forall f st p c, walk_step f st [] <> WAt p (File c).
+Proof.
+  intros f st p c. destruct st as [q n|]; [|discriminate].
+  destruct n as [b|]; [discriminate|]. cbn. discriminate.
+Qed.
+
+Lemma ends_slash_snoc : forall s, ends_slash s = true -> exists s', s = s' ++ [47].
+Proof.
+  intros s H. unfold ends_slash in H. destruct (rev s) as [|x r] eqn:E; [discriminate|].
+  assert (x = 47) as ->.
+  { destruct x as [|p]; [discriminate|].
+    do 6 (try (destruct p as [p|p|]; try discriminate H)). reflexivity. }
+  exists (rev r). rewrite <- (rev_involutive s), E. reflexivity.
+Qed.
+
+Lemma join_empty_snoc : forall base, exists s', join_raw base [] = s' ++ [47].
+Proof.
+  intros base. unfold join_raw. cbn [starts_slash].
+  destruct (ends_slash base) eqn:E.
+  - destruct (ends_slash_snoc base E) as [s' ->]. exists s'. rewrite !app_nil_r. reflexivity.
+  - exists base. rewrite app_nil_r. reflexivity.
+Qed.
+
+Lemma empty_id_never_a_file : forall f base, is_file_at f base [] = false.
+Proof.
+  intros f base. unfold is_file_at, resolve.
+  destruct (join_empty_snoc base) as [s' ->].
+  destruct (s' ++ [47]) as [|x r] eqn:E; [reflexivity|]. rewrite <- E.
+  destruct (has_nul (s' ++ [47]) || (PATH_MAX <=? nlen (s' ++ [47]))); [reflexivity|].
+  unfold split_on. rewrite split_aux_snoc, fold_left_app. cbn [fold_left].
+  match goal with
+  | |- context [walk_step f ?st ?e] =>
+    pose proof (walk_last_empty_not_file f st) as K; destruct (walk_step f st e) as [p [c|]|]
+  end; try reflexivity.
+  exfalso. exact (K p c eq_refl).
+Qed.
+
+(* the two is_file shapes are the same predicate *)
+Lemma nonempty_test_redundant : forall f base id,
+  guard_eval GNonEmptyIsFile f base id = guard_eval GIsFile f base id.
+Proof.
+  intros f base id. cbn [guard_eval]. destruct id as [|x r]; [|reflexivity].
+  cbn [nonempty andb]. symmetry. apply empty_id_never_a_file.
+Qed.
+
+(* ... the two exists shapes are not: "" passes one and not the other *)
+Lemma nonempty_test_matters_for_exists :
+  guard_eval GExists w_fs w_base [] = true /\ guard_eval GNonEmptyExists w_fs w_base [] = false
+  /\ guard_eval GNonEmptyExists w_fs w_base [46] = true.
+Proof. vm_compute. repeat split; reflexivity. Qed.
